@@ -190,3 +190,25 @@ def run(repo: Repo, L: Ledger, tier: str):
             if sorts and lp_.lineno < sorts[0].lineno:
                 ok4b, why4b = False, "numbering happens before the groups are sorted"
     L.check(ok4b, "R4", nc.short + ":number", "chromosome n = index + 1 for every group", why4b, nc.loc())
+    _first_haplotype(repo, L)
+
+
+def _first_haplotype(repo, L):
+    """The first haplotype *seen in the map* decides the ranking: insertion orders are kept."""
+    cg = repo.cls("ChrGroup")
+    cn = repo.cls("ChrNamer")
+    init = cg.methods.get("__init__")
+    hp = init.params()[1]
+    loops = [n for n in walk_shallow(init.node) if isinstance(n, ast.For)]
+    ok = len(loops) == 1 and is_name(loops[0].iter, hp) and len(loops[0].body) == 1 and isinstance(loops[0].body[0], ast.Assign)
+    L.check(ok, "R4", "ChrGroup.__init__", "per-haplotype table filled in the order the haplotypes were first seen", f"ChrGroup orders its haplotypes by '{norm(loops[0].iter) if loops else None}', not in first-seen order: chromosome numbers follow another haplotype's sizes", init.loc())
+    lf = cg.methods.get("length_of_first_haplotype")
+    ok2 = lf is not None and any(isinstance(n, ast.Assign) and isinstance(n.targets[0], ast.Tuple) and norm(n.value) == "self.data.values()" and isinstance(n.targets[0].elts[0], ast.Name) and len(n.targets[0].elts) == 2 and isinstance(n.targets[0].elts[1], ast.Starred) for n in walk_shallow(lf.node))
+    L.check(ok2, "R4", "ChrGroup.length_of_first_haplotype", "takes the first haplotype's scaffolds", "length_of_first_haplotype does not take the first entry of the per-haplotype table", lf.loc() if lf else "")
+    ng = cn.methods.get("new_group")
+    ok3 = ng is not None and any(isinstance(c, ast.Call) and dotted(c.func) == "ChrGroup" and c.args and norm(c.args[0]) == "self.haplotypes_seen" for c in walk_shallow(ng.node))
+    add = cn.methods.get("add_scaffold")
+    ok3 = ok3 and add is not None and any(isinstance(n, ast.Assign) and norm(n.targets[0]).startswith("self.haplotypes_seen[") for n in walk_shallow(add.node))
+    hs_init = [n for n in walk_shallow(cn.methods["__init__"].node) if isinstance(n, ast.Assign) and norm(n.targets[0]) == "self.haplotypes_seen"]
+    ok3 = ok3 and len(hs_init) == 1 and isinstance(hs_init[0].value, ast.Dict)
+    L.check(ok3, "R4", "ChrNamer.haplotypes_seen", "haplotypes recorded in a dict (insertion order) and handed to every group", "haplotypes are not recorded in first-seen order (dict) / not handed to ChrGroup unchanged", cn.module.relpath)
